@@ -208,6 +208,57 @@ let () =
       | _ -> failwith "BK");
   reg "OO" (fun _ -> Some ("O " ^ b2s (one_to_one !e_table) ^ " " ^ b2s (defs_only !e_table)))
 
+(* ---- image checker.  IN (new image) ; IA off size ; IR target need nullok ; IF/IB hash e.. ; IC/ID value bucket e.. ;
+   IP/IQ n e..  (each e = off idx op len raw low) ; IX used  ->  "I total allocs refs fwd back chars cells fpass bpass" *)
+let im_allocs = ref [] and im_refs = ref [] and im_fwd = ref [] and im_back = ref []
+and im_chars = ref [] and im_cells = ref [] and im_fpass = ref [] and im_bpass = ref []
+let rec elems = function
+  | a :: b :: c :: d :: e :: f :: r ->
+    { c_off = z_of_int a; c_idx = z_of_int b; c_op = z_of_int c; c_len = z_of_int d; c_raw = z_of_int e; c_low = z_of_int f } :: elems r
+  | _ -> []
+let () =
+  reg "IN" (fun _ -> im_allocs := []; im_refs := []; im_fwd := []; im_back := []; im_chars := []; im_cells := []; im_fpass := []; im_bpass := []; None);
+  reg "IA" (fun ws -> (match ints ws with [ o; s ] -> im_allocs := { a_off = z_of_int o; a_size = z_of_int s } :: !im_allocs | _ -> failwith "IA"); None);
+  reg "IR" (fun ws -> (match ints ws with [ t; n; k ] -> im_refs := { r_target = z_of_int t; r_need = z_of_int n; r_nullok = (k = 1) } :: !im_refs | _ -> failwith "IR"); None);
+  reg "IF" (fun ws -> (match ints ws with h :: r -> im_fwd := (z_of_int h, elems r) :: !im_fwd | _ -> failwith "IF"); None);
+  reg "IB" (fun ws -> (match ints ws with h :: r -> im_back := (z_of_int h, elems r) :: !im_back | _ -> failwith "IB"); None);
+  reg "IC" (fun ws -> (match ints ws with v :: b :: r -> im_chars := ((z_of_int v, z_of_int b), elems r) :: !im_chars | _ -> failwith "IC"); None);
+  reg "ID" (fun ws -> (match ints ws with v :: b :: r -> im_cells := ((z_of_int v, z_of_int b), elems r) :: !im_cells | _ -> failwith "ID"); None);
+  reg "IP" (fun ws -> (match ints ws with h :: r -> im_fpass := (z_of_int h, elems r) :: !im_fpass | _ -> failwith "IP"); None);
+  reg "IQ" (fun ws -> (match ints ws with h :: r -> im_bpass := (z_of_int h, elems r) :: !im_bpass | _ -> failwith "IQ"); None);
+  reg "IX" (fun ws -> match ints ws with
+      | [ used ] ->
+        let al = List.rev !im_allocs in
+        let i = { i_used = z_of_int used; i_allocs = al; i_refs = !im_refs; i_fwd = !im_fwd; i_back = !im_back;
+                  i_chars = !im_chars; i_cells = !im_cells; i_fpass = !im_fpass; i_bpass = !im_bpass } in
+        let all p l = List.for_all p l in
+        let m = build_map al in
+        Some (String.concat " " ("I" :: List.map b2s [
+            check_image i;
+            allocs_ok (z_of_int used) (z_of_int 1) al;
+            all (ref_ok m) !im_refs;
+            all (bucket_ok m fwd_before) !im_fwd;
+            all (bucket_ok m (fun _ _ -> false)) !im_back;
+            all (record_ok m single_before_e) !im_chars;
+            all (record_ok m (fun _ _ -> false)) !im_cells;
+            all (pass_ok m fpass_before) !im_fpass;
+            all (pass_ok m bpass_before) !im_bpass ]))
+      | _ -> failwith "IX")
+
+(* ---- reader:  RL b b b ..  (file bytes) -> "L | hex .. | hex .. | lines=n" ; RD token chars ; RP token chars *)
+let () =
+  reg "RL" (fun ws ->
+      match decode (List.map z_of_int (ints ws)) with
+      | DBadEncoding -> Some "L | lines=0 badencoding"
+      | DChars cs ->
+        let ls = lines_of cs in
+        Some ("L" ^ String.concat "" (List.map (fun l -> " |" ^ String.concat "" (List.map (fun c -> Printf.sprintf " %x" (int_of_z c)) l)) ls)
+              ^ " | lines=" ^ string_of_int (List.length ls)));
+  reg "RD" (fun ws -> match parse_dots (List.map z_of_int (ints ws)) with
+      | None -> Some "D 0" | Some cs -> Some ("D " ^ string_of_int (List.length cs) ^ String.concat "" (List.map (fun c -> " " ^ string_of_int (int_of_z c)) cs)));
+  reg "RP" (fun ws -> match parse_chars (List.map z_of_int (ints ws)) with
+      | None -> Some "P NONE" | Some cs -> Some ("P " ^ string_of_int (List.length cs) ^ String.concat "" (List.map (fun c -> " " ^ string_of_int (int_of_z c)) cs)))
+
 (* ---- finishing code
    FF outlen L pm...     forward:  "F inlen | inputPos | outputPos"
    FB inlen outlen pm... backward: "F | inputPos | outputPos"                               *)
